@@ -28,6 +28,8 @@ def monitor(c):
 
 
 def run(ctx, out):
+    import families as _fam
+    out.evaluations += _fam.construction_paths_family(out, PROP)
     out.rule = ('grammar-directed types (depth <= 3 quick / 4 thorough) x values from three streams (valid from the type / one or two '
                 'type-blind edits of a valid value / arbitrary); both passes called directly on the converter and through from_data. '
                 'Non-trivial = non-leaf type; distinct by (type term, value).')
